@@ -166,6 +166,12 @@ def write_evidence(prop, tier, seed, rec, wall, extra, n_viol, controls=None):
     return ev
 
 
+def clear_replay(prop):
+    p = os.path.join(VERIF, 'evidence', 'replay', '%s.json' % prop)
+    if os.path.exists(p):
+        os.remove(p)
+
+
 def write_replay(prop, new, scratch=False):
     d = os.path.join(VERIF, 'evidence', 'replay')
     if scratch:
